@@ -28,7 +28,12 @@ CONSTANTS
   Bug_SnapshotSwapsBounds,     \* snapshot record written as largest..smallest (defect 2)
   Bug_SeqFromManifestOnly,     \* last sequence restored from the manifest, not from the logs
   Bug_ReplaySkipsOlderLogs,    \* only the newest log is replayed
-  Bug_CounterNotRestored       \* file-number counter taken from the manifest only
+  Bug_CounterNotRestored,      \* file-number counter taken from the manifest only
+  Bug_CloseInstallsPartial,    \* a close during a table compaction installs the outputs written so
+                               \* far (and removes ALL inputs) instead of abandoning the compaction
+  Bug_MoveRecordLosesDelete,   \* the manifest record of a trivial move lacks the delete
+  Bug_OpenKeepsOldLogNumber    \* the manifest snapshot written at open records the OLD log number
+                               \* although the last log was re-adopted (dead logs are kept)
 
 VARIABLES man, walEnts, isopen, reopens
 
@@ -89,7 +94,18 @@ Close ==
   /\ isopen /\ pins = {} /\ snaps = <<>>
   /\ reopens < MaxReopens
   /\ isopen' = FALSE
-  /\ UNCHANGED <<coreVars, man, walEnts, reopens>>
+  /\ IF Bug_CloseInstallsPartial /\ comp.on /\ comp.outs # {} /\ comp.todo # {}
+     THEN \* the shutdown flag ends the merge loop early; the outputs so far are installed
+          /\ LET l == comp.lvl
+                 gone == comp.in0 \cup comp.in1
+                 R == {MkRec(no, files[no]) : no \in comp.outs} IN
+             cur' = [cur EXCEPT ![l] = RemoveNos(@, gone),
+                                ![l + 1] = InsertAll(RemoveNos(@, gone), R)]
+          /\ pending' = pending \ comp.outs /\ comp' = NoComp
+          /\ UNCHANGED <<nk, seq, hist, mem, imm, immOn, immDone, immWal, files, pins, snaps, disk,
+                         nextFile, curWal, logWal, nextPin, gcDue, walEnts, reopens>>
+          /\ Logged
+     ELSE UNCHANGED <<coreVars, man, walEnts, reopens>>
 
 SnapshotEdit(v, lw, nx, ls) ==
   [add |-> UNION {{[lvl |-> l,
@@ -134,7 +150,9 @@ Open(reuse, mreuse) ==
      /\ disk' = (disk \cup {<<"table", counter + j>> : j \in 1..nt}) \cup {<<"wal", wno>>}
      /\ walEnts' = IF walReused THEN walEnts ELSE (wno :> {}) @@ walEnts
      /\ IF ~(reuse /\ mreuse)
-        THEN man' = FoldEdit(EmptyMan, SnapshotEdit(v2, wno, nxt, lastSeq)) /\ logWal' = wno
+        THEN IF Bug_OpenKeepsOldLogNumber /\ walReused
+             THEN man' = FoldEdit(EmptyMan, SnapshotEdit(v2, r.logWal, nxt, lastSeq)) /\ logWal' = r.logWal
+             ELSE man' = FoldEdit(EmptyMan, SnapshotEdit(v2, wno, nxt, lastSeq)) /\ logWal' = wno
         ELSE IF changed THEN man' = FoldEdit(man, edit) /\ logWal' = wno
         ELSE man' = man /\ logWal' = r.logWal
   /\ imm' = {} /\ immOn' = FALSE /\ immDone' = FALSE /\ immWal' = 0
@@ -150,7 +168,9 @@ RNext ==
   \/ isopen /\ ImmDrop /\ Same
   \/ RRemoveObsolete
   \/ isopen /\ (\E l \in Levels : \E f \in LvlSet(cur, l) : CompactPick(l, f)) /\ Same
-  \/ isopen /\ (\E l \in Levels : \E f \in LvlSet(cur, l) : TrivialMove(l, f)) /\ Logged
+  \/ isopen /\ (\E l \in Levels : \E f \in LvlSet(cur, l) : TrivialMove(l, f))
+            /\ (IF Bug_MoveRecordLosesDelete THEN man' = FoldEdit(man, [EditOf EXCEPT !.del = {}])
+                ELSE Logged)
             /\ UNCHANGED <<walEnts, isopen, reopens>>
   \/ isopen /\ (\E n \in 1..FileCap : CompactEmit(n)) /\ Same
   \/ isopen /\ CompactInstall /\ Logged /\ UNCHANGED <<walEnts, isopen, reopens>>
@@ -173,5 +193,12 @@ NumbersFresh ==
   isopen => /\ \A l \in Levels : \A f \in LvlSet(cur, l) : f.no <= nextFile
             /\ \A n \in pending : n <= nextFile
             /\ \A w \in DOMAIN walEnts : w >= logWal => w <= nextFile
+\* C11 for logs: after a deletion pass no log other than the one being written is left whose
+\* records are all in table files (largest sequence in the log <= largest sequence in the tables;
+\* flushes happen in sequence order, so such a log can never be needed again)
+TableSeqMax == SeqMax(UNION {EntsOf(files, f.no) : f \in UNION {LvlSet(cur, l) : l \in Levels}})
+DeadLogs == {w \in DOMAIN walEnts : /\ w # curWal /\ walEnts[w] # {} /\ <<"wal", w>> \in disk
+                                      /\ SeqMax(walEnts[w]) <= TableSeqMax}
+NoDeadLogAfterPass == [][(isopen /\ RemoveObsolete) => DeadLogs' = {}]_rvars
 RBound == nextFile <= MaxFiles
 =============================================================================
